@@ -262,4 +262,52 @@ theorem locFromChars_locChars (l : Loc) (hne : l.parts ≠ []) : locFromChars (l
         Option.bind_eq_bind, Option.bind_some, mapM_parseSingle, Option.pure_def]
 
 
+/-- `locChars` is the `join` instance of `opLocChars` -/
+theorem locChars_eq_op (l : Loc) : locChars l = opLocChars ['j', 'o', 'i', 'n'] l := by
+  cases l <;> simp [locChars, opLocChars]
+
+/-- `locFromChars` forgets the operator `locFromCharsOp` keeps -/
+theorem locFromChars_eq_op (s : List Char) : locFromChars s = (locFromCharsOp s).map Prod.snd := by
+  unfold locFromChars locFromCharsOp
+  split
+  · cases parseSingle s <;> simp
+  · cases h1 : splitFirst '{' s.dropLast with
+    | none => simp
+    | some pr =>
+      obtain ⟨a, b⟩ := pr
+      cases h2 : (splitCommaSpace [] b).mapM parseSingle <;> simp [h2]
+
+/-- the textual form of a location, with any operator free of `{`, reads back to the same location and operator -/
+theorem locFromCharsOp_opLocChars (op : List Char) (hop : ∀ c ∈ op, c ≠ '{') (l : Loc) (hne : l.parts ≠ []) :
+    locFromCharsOp (opLocChars op l) = some (l.opOf op, l) := by
+  cases l with
+  | simple p =>
+    have hnc : (partChars p).contains '{' = false := by
+      cases hc : (partChars p).contains '{'
+      · rfl
+      · rw [List.contains_iff_mem] at hc
+        exact absurd rfl (partChars_no p '{' (by decide) _ hc)
+    simp only [locFromCharsOp, opLocChars, hnc, Bool.not_false, if_true, parseSingle_partChars, Option.map_some, Loc.opOf]
+  | compound ps =>
+    match ps, hne with
+    | p :: rest, _ =>
+      have hc : (opLocChars op (.compound (p :: rest))).contains '{' = true := by
+        simp [opLocChars]
+      have hdrop : (opLocChars op (.compound (p :: rest))).dropLast = op ++ '{' :: joinParts ((p :: rest).map partChars) := by
+        simp only [opLocChars]
+        have : op ++ '{' :: joinParts (List.map partChars (p :: rest)) ++ ['}']
+            = (op ++ '{' :: joinParts (List.map partChars (p :: rest))) ++ ['}'] := by simp
+        rw [this, List.dropLast_concat]
+      have hsplit : splitFirst '{' (op ++ '{' :: joinParts ((p :: rest).map partChars))
+          = some (op, joinParts ((p :: rest).map partChars)) := splitFirst_append _ _ _ hop
+      have hjoin : splitCommaSpace [] (joinParts ((p :: rest).map partChars)) = (p :: rest).map partChars := by
+        rw [List.map_cons]
+        apply splitCS_join
+        intro x hx c hcx
+        rw [← List.map_cons] at hx
+        obtain ⟨q, _, rfl⟩ := List.mem_map.1 hx
+        exact partChars_no q ',' (by decide) c hcx
+      simp only [locFromCharsOp, hc, Bool.not_true, Bool.false_eq_true, if_false, hdrop, hsplit, hjoin,
+        Option.bind_eq_bind, Option.bind_some, mapM_parseSingle, Option.pure_def, Loc.opOf]
+
 end ASV
